@@ -263,7 +263,7 @@ func (e *FnEnc) instr(in ssa.Instruction) {
 		e.setHeap(h, sx("store", e.heap(h), r, s.Zero(pt.Elem())))
 		e.vals[i] = Val{T: r, Ty: i.Type()}
 		if ei, never := e.escapeInfo(i); never || ei != nil {
-			e.locals = append(e.locals, localRef{h.Name, r, ei})
+			e.locals = append(e.locals, localRef{h.Name, r, ei, pt.Elem()})
 		}
 	case *ssa.FieldAddr:
 		base := e.val(i.X)
@@ -284,7 +284,11 @@ func (e *FnEnc) instr(in ssa.Instruction) {
 		switch u := i.X.Type().Underlying().(type) {
 		case *types.Slice:
 			e.boundsCheck(idx.T, sx("slen", base.T), i)
-			e.vals[i] = Val{Ty: i.Type(), Loc: &Loc{Heap: s.ArrHeap(u.Elem()), Ref: sx("sref", base.T), Elem: true, Idx: idx.T, RootTy: u.Elem()}}
+			ah := s.ArrHeap(u.Elem())
+			if e.ownedSlice(i.X) {
+				ah = s.ArrHeapOwned(u.Elem())
+			}
+			e.vals[i] = Val{Ty: i.Type(), Loc: &Loc{Heap: ah, Ref: sx("sref", base.T), Elem: true, Idx: idx.T, RootTy: u.Elem()}}
 		case *types.Pointer:
 			l := e.locOf(base)
 			at := u.Elem().Underlying().(*types.Array)
@@ -323,7 +327,7 @@ func (e *FnEnc) instr(in ssa.Instruction) {
 			// unknown calls leave it unchanged, like the object itself
 			if mt, isMap := i.Type().Underlying().(*types.Map); isMap && !l.Elem && immutableHeap(l.Heap.Name) {
 				sr := e.sorts()
-				e.locals = append(e.locals, localRef{sr.MapDom(mt.Key()).Name, v.T, nil}, localRef{sr.MapVal(mt.Key(), mt.Elem()).Name, v.T, nil}, localRef{MapLen.Name, v.T, nil})
+				e.locals = append(e.locals, localRef{sr.MapDom(mt.Key()).Name, v.T, nil, nil}, localRef{sr.MapVal(mt.Key(), mt.Elem()).Name, v.T, nil, nil}, localRef{MapLen.Name, v.T, nil, nil})
 			}
 		case token.NOT:
 			e.setVal(i, not(x.T))
@@ -454,7 +458,7 @@ func (e *FnEnc) instr(in ssa.Instruction) {
 		e.vals[i] = Val{T: r, Ty: i.Type()}
 		e.assume(sx("=", e.W.UF("mtype", []string{"Int"}, "Int", r), fmt.Sprint(e.W.TypeID(mt))))
 		if ei, never := e.escapeInfo(i); never || ei != nil {
-			e.locals = append(e.locals, localRef{md.Name, r, ei}, localRef{s.MapVal(mt.Key(), mt.Elem()).Name, r, ei}, localRef{MapLen.Name, r, ei})
+			e.locals = append(e.locals, localRef{md.Name, r, ei, nil}, localRef{s.MapVal(mt.Key(), mt.Elem()).Name, r, ei, nil}, localRef{MapLen.Name, r, ei, nil})
 		}
 	case *ssa.MapUpdate:
 		m, k, v := e.val(i.Map), e.val(i.Key), e.val(i.Value)
@@ -843,14 +847,43 @@ func (e *FnEnc) valueEscapes(v ssa.Value) bool {
 	return false
 }
 
+// ownedSlice: the slice value is read from a field of an object owned by go/ssa, go/types, ... (b.Succs, fn.Blocks).
+func (e *FnEnc) ownedSlice(v ssa.Value) bool {
+	immutableStruct := func(t types.Type) bool {
+		if p, ok := t.Underlying().(*types.Pointer); ok {
+			t = p.Elem()
+		}
+		if _, ok := t.Underlying().(*types.Struct); !ok {
+			return false
+		}
+		return immutableHeap(e.sorts().StructHeap(t).Name)
+	}
+	switch x := v.(type) {
+	case *ssa.UnOp:
+		if fa, ok := x.X.(*ssa.FieldAddr); ok && x.Op == token.MUL {
+			return immutableStruct(fa.X.Type())
+		}
+	case *ssa.Field:
+		return immutableStruct(x.X.Type())
+	}
+	return false
+}
+
 // escapeSites: the instructions at which the local object v (an Alloc or a MakeMap) becomes reachable by code outside
 // this function. A store of v into another local object defers to that object's escape. all=true: unknown uses.
-func (e *FnEnc) escapeSites(v ssa.Value, seen map[ssa.Value]bool) (sites []ssa.Instruction, all bool) {
-	if seen[v] {
+func (e *FnEnc) escapeSites(v ssa.Value, seen map[interface{}]bool, asHolder bool) (sites []ssa.Instruction, all bool) {
+	var key interface{} = v
+	if seen[key] && !asHolder {
 		return nil, false
 	}
-	seen[v] = true
-	_, isMap := v.Type().Underlying().(*types.Map)
+	if asHolder {
+		if seen[holderKey{v}] {
+			return nil, false
+		}
+		seen[holderKey{v}] = true
+	} else {
+		seen[key] = true
+	}
 	localRoot := func(addr ssa.Value) *ssa.Alloc {
 		for {
 			switch a := addr.(type) {
@@ -866,8 +899,8 @@ func (e *FnEnc) escapeSites(v ssa.Value, seen map[ssa.Value]bool) (sites []ssa.I
 			return nil
 		}
 	}
-	var visit func(x ssa.Value, depth int)
-	visit = func(x ssa.Value, depth int) {
+	var visit func(x ssa.Value, depth int, holder bool)
+	visit = func(x ssa.Value, depth int, holder bool) {
 		refs := x.Referrers()
 		if refs == nil {
 			all = true
@@ -878,20 +911,23 @@ func (e *FnEnc) escapeSites(v ssa.Value, seen map[ssa.Value]bool) (sites []ssa.I
 			case *ssa.DebugRef:
 			case *ssa.FieldAddr:
 				if u.X == x {
-					visit(u, depth+1)
+					visit(u, depth+1, holder)
 				}
 			case *ssa.IndexAddr:
 				if u.X == x {
-					visit(u, depth+1)
+					visit(u, depth+1, holder)
 				}
 			case *ssa.UnOp:
 				if u.Op != token.MUL {
 					sites = append(sites, u)
+				} else if holder && isCarrierT(u.Type()) {
+					// a pointer / map / slice read back from the object that holds ours may be ours: its uses count
+					visit(u, depth+1, false)
 				}
 			case *ssa.Store:
 				if u.Val == x {
 					if L := localRoot(u.Addr); L != nil && L != v {
-						s2, a2 := e.escapeSites(L, seen)
+						s2, a2 := e.escapeSites(L, seen, true)
 						sites = append(sites, s2...)
 						all = all || a2
 					} else {
@@ -899,11 +935,12 @@ func (e *FnEnc) escapeSites(v ssa.Value, seen map[ssa.Value]bool) (sites []ssa.I
 					}
 				}
 			case *ssa.MapUpdate:
-				if !(isMap && depth == 0 && u.Map == x && u.Value != x && u.Key != x) {
+				// updating the map (ours or an alias of it) is a write, not an escape; storing x as key or value is
+				if !(u.Map == x && u.Value != x && u.Key != x) {
 					sites = append(sites, u)
 				}
 			case *ssa.Lookup:
-				if !(isMap && depth == 0 && u.X == x) {
+				if u.X != x {
 					sites = append(sites, u)
 				}
 			case *ssa.Range:
@@ -929,9 +966,11 @@ func (e *FnEnc) escapeSites(v ssa.Value, seen map[ssa.Value]bool) (sites []ssa.I
 			}
 		}
 	}
-	visit(v, 0)
+	visit(v, 0, asHolder)
 	return sites, all
 }
+
+type holderKey struct{ v ssa.Value }
 
 func closureOnlySorts(mc *ssa.MakeClosure) bool {
 	refs := mc.Referrers()
@@ -961,7 +1000,7 @@ func closureOnlySorts(mc *ssa.MakeClosure) bool {
 // escapeInfo: never=true if the object does not escape at all; otherwise the region of program points from which it
 // may have escaped (nil with never=false: treat as escaped from the start).
 func (e *FnEnc) escapeInfo(v ssa.Value) (info *escInfo, never bool) {
-	sites, all := e.escapeSites(v, map[ssa.Value]bool{})
+	sites, all := e.escapeSites(v, map[interface{}]bool{}, false)
 	if all {
 		return nil, false
 	}
